@@ -109,6 +109,7 @@ def run(c: sym.Ctx, spec: Dict[str, Any], on_step: Any = None) -> Run:
 
     def stop() -> None:
         r.stop_at = len(lab.ev)
+        r.info["t_stop"] = lab.loop.time()
         finish.set()
 
     lab.env["stop"] = stop
@@ -151,12 +152,12 @@ def run(c: sym.Ctx, spec: Dict[str, Any], on_step: Any = None) -> Run:
                 on_step(r)
             if main.done():
                 break
-            if "stop" in lab.env:
-                _apply(lab, "stop")
-                continue
             opts = sorted(g for g, f in lab.gates.items() if not f.done() and not g.startswith("hang:") and g != "stream")
             if opts:
                 _apply(lab, opts[0])
+                continue
+            if "stop" in lab.env:
+                _apply(lab, "stop")
                 continue
             if loop.next_timer() is not None:
                 _apply(lab, "~tick")
@@ -164,6 +165,7 @@ def run(c: sym.Ctx, spec: Dict[str, Any], on_step: Any = None) -> Run:
             r.stuck = True
             break
         r.returned = main.done()
+        r.info["t_end"] = lab.loop.time()
         if main.done() and not main.cancelled() and main.exception() is not None:
             r.info["listen_exception"] = repr(main.exception())
         sem = getattr(recv, "sem", None)
